@@ -200,6 +200,14 @@ def check_value_hashes(ev):
         ev.case({"pinned_value": row["value"], "hash": h}, True, features=["pinned-value-hash"], key=["vh", i])
         if h != row["hash"]:
             viols.append(Violation(f"pinned value hash changed: dds_hash({v!r}) = {h[:16]}, pinned {row['hash'][:16]}", {"value_hash": i}))
+    if not viols:
+        # the same table in a fresh interpreter with another hash seed and another time zone
+        from . import c05
+
+        other = c05.other_process_hashes([row["value"] for row in table], hashseed=4242)
+        for i, (row, o) in enumerate(zip(table, other)):
+            if o[0] == "sig" and o[1] != row["hash"]:
+                viols.append(Violation(f"pinned value hash differs in a process with another hash seed / time zone: dds_hash({dec(row['value'])!r}) = {o[1][:16]}, pinned {row['hash'][:16]}", {"value_hash": i}))
     return viols
 
 
